@@ -302,6 +302,11 @@ func TypesFuncKey(obj *types.Func) string {
 // pinned commit); when nil every unexported same-package function is a candidate.
 var InlineOnly func(key string) bool
 
+// InlineClosuresIn, when non-nil, allows β-reducing calls of locally bound function literals
+// inside the declared function with that key (the normal form allows it where a function
+// has more literals than at the pinned commit: a closure introduced by a refactoring).
+var InlineClosuresIn func(hostKey string, nLits int) bool
+
 func eligibleCallee(fd *ast.FuncDecl, obj *types.Func, sig *types.Signature, info *types.Info) string {
 	if obj != nil {
 		if InlineOnly != nil {
@@ -453,6 +458,7 @@ func (in *inliner) tryInline(pkg *packages.Package, file *ast.File, host *ast.Fu
 	decls map[*types.Func]*ast.FuncDecl, fileOf map[*ast.FuncDecl]*ast.File, edits *[]edit, imports map[string]string) bool {
 	info := pkg.TypesInfo
 	hostFile := in.P.Fset.Position(file.Pos()).Filename
+	var closureUse *edit // keeps a β-reduced closure variable "used"
 	var (
 		obj        *types.Func
 		fd         *ast.FuncDecl
@@ -475,7 +481,7 @@ func (in *inliner) tryInline(pkg *packages.Package, file *ast.File, host *ast.Fu
 		sig = obj.Type().(*types.Signature)
 		calleeFile = in.P.Fset.Position(fileOf[fd].Pos()).Filename
 		calleeName = obj.Name()
-	} else if id, ok := ast.Unparen(call.Fun).(*ast.Ident); ok && strings.HasPrefix(id.Name, "_i") {
+	} else if id, ok := ast.Unparen(call.Fun).(*ast.Ident); ok && (strings.HasPrefix(id.Name, "_i") || in.closuresAllowed(pkg, host)) {
 		// a function-typed parameter of a helper inlined in an earlier round, bound to a
 		// function literal at the (former) call site: β-reduce
 		v, ok := info.Uses[id].(*types.Var)
@@ -497,6 +503,7 @@ func (in *inliner) tryInline(pkg *packages.Package, file *ast.File, host *ast.Fu
 		if call.Pos() >= lit.Pos() && call.Pos() < lit.End() {
 			return false // a call inside the literal itself
 		}
+		closureUse = &edit{in.off(lit.End()), in.off(lit.End()), "; _ = " + id.Name}
 	} else {
 		return false
 	}
@@ -694,6 +701,89 @@ func (in *inliner) tryInline(pkg *packages.Package, file *ast.File, host *ast.Fu
 	for _, r := range results {
 		rnames = append(rnames, r.name)
 	}
+	// ---- specialise on constant boolean arguments: `f(x, true)` with `if flag { … }` in f
+	// keeps only the branch that runs (the flag parameter must never be assigned in f)
+	constBool := map[types.Object]bool{}
+	{
+		ai := 0
+		for _, f := range fd.Type.Params.List {
+			names := f.Names
+			if len(names) == 0 {
+				names = []*ast.Ident{nil}
+			}
+			for _, nm := range names {
+				if ai < len(call.Args) && nm != nil {
+					if id, ok := ast.Unparen(call.Args[ai]).(*ast.Ident); ok && (id.Name == "true" || id.Name == "false") {
+						if _, isConst := info.Uses[id].(*types.Const); isConst {
+							if o := info.Defs[nm]; o != nil {
+								constBool[o] = id.Name == "true"
+							}
+						}
+					}
+				}
+				ai++
+			}
+		}
+		if len(constBool) > 0 {
+			ast.Inspect(fd.Body, func(n ast.Node) bool {
+				switch x := n.(type) {
+				case *ast.AssignStmt:
+					for _, l := range x.Lhs {
+						if id, ok := ast.Unparen(l).(*ast.Ident); ok {
+							delete(constBool, info.Uses[id])
+						}
+					}
+				case *ast.UnaryExpr:
+					if x.Op == token.AND {
+						if id, ok := ast.Unparen(x.X).(*ast.Ident); ok {
+							delete(constBool, info.Uses[id])
+						}
+					}
+				}
+				return true
+			})
+		}
+		if len(constBool) > 0 {
+			ast.Inspect(fd.Body, func(n ast.Node) bool {
+				if _, isLit := n.(*ast.FuncLit); isLit {
+					return false
+				}
+				ifs, ok := n.(*ast.IfStmt)
+				if !ok || ifs.Init != nil {
+					return true
+				}
+				c := ast.Unparen(ifs.Cond)
+				neg := false
+				if u, ok := c.(*ast.UnaryExpr); ok && u.Op == token.NOT {
+					c, neg = ast.Unparen(u.X), true
+				}
+				id, ok := c.(*ast.Ident)
+				if !ok {
+					return true
+				}
+				val, known := constBool[info.Uses[id]]
+				if !known {
+					return true
+				}
+				taken := val != neg
+				is, ie := in.off(ifs.Pos())-cbase, in.off(ifs.End())-cbase
+				bl, br := in.off(ifs.Body.Lbrace)-cbase, in.off(ifs.Body.Rbrace)-cbase
+				switch {
+				case taken:
+					// keep the then-block as a plain block, drop `if cond` and any else
+					cedits = append(cedits, edit{is, bl, ""})
+					if ifs.Else != nil {
+						cedits = append(cedits, edit{br + 1, ie, ""})
+					}
+				case ifs.Else != nil:
+					cedits = append(cedits, edit{is, in.off(ifs.Else.Pos()) - cbase, ""})
+				default:
+					cedits = append(cedits, edit{is, ie, "_ = 0"})
+				}
+				return true
+			})
+		}
+	}
 	okReturns := true
 	// simple top-level defers: their calls run at every exit that lies after the statement
 	type dcall struct {
@@ -815,6 +905,9 @@ func (in *inliner) tryInline(pkg *packages.Package, file *ast.File, host *ast.Fu
 		}
 		*edits = append(*edits, edit{stmtStart, stmtStart, sb.String()})
 		*edits = append(*edits, edit{in.off(call.Pos()), in.off(call.End()), strings.Join(rnames, ", ")})
+	}
+	if closureUse != nil {
+		*edits = append(*edits, *closureUse)
 	}
 	in.n++
 	if len(in.Log) < 400 {
@@ -1093,4 +1186,58 @@ func (in *inliner) pureHelper(pkg *packages.Package, decls map[*types.Func]*ast.
 	})
 	in.pure[obj] = ok
 	return ok
+}
+
+func (in *inliner) closuresAllowed(pkg *packages.Package, host *ast.FuncDecl) bool {
+	if InlineClosuresIn == nil {
+		return false
+	}
+	obj, ok := pkg.TypesInfo.Defs[host.Name].(*types.Func)
+	if !ok {
+		return false
+	}
+	n := 0
+	ast.Inspect(host.Body, func(nd ast.Node) bool {
+		if _, isLit := nd.(*ast.FuncLit); isLit {
+			n++
+		}
+		return true
+	})
+	return InlineClosuresIn(TypesFuncKey(obj), n)
+}
+
+// DeclaredClosureCounts: number of function literals per declared function.
+func (P *Program) DeclaredClosureCounts() map[string]int {
+	out := map[string]int{}
+	for _, pkg := range P.Pkgs {
+		if pkg.TypesInfo == nil {
+			continue
+		}
+		for _, f := range pkg.Syntax {
+			if IsGeneratedOrAux(strings.TrimPrefix(P.Fset.Position(f.Pos()).Filename, P.Dir+"/")) {
+				continue
+			}
+			for _, d := range f.Decls {
+				fd, ok := d.(*ast.FuncDecl)
+				if !ok || fd.Body == nil {
+					continue
+				}
+				obj, ok := pkg.TypesInfo.Defs[fd.Name].(*types.Func)
+				if !ok {
+					continue
+				}
+				n := 0
+				ast.Inspect(fd.Body, func(nd ast.Node) bool {
+					if _, isLit := nd.(*ast.FuncLit); isLit {
+						n++
+					}
+					return true
+				})
+				if n > 0 {
+					out[TypesFuncKey(obj)] = n
+				}
+			}
+		}
+	}
+	return out
 }
